@@ -303,6 +303,16 @@ func (propC18) Gen(r *Rng, run uint64, tier string) *Plan {
 		}
 		p.Tags["cache_pressure"] = fmt.Sprint(sizes[r.Intn(len(sizes))])
 	}
+	if fr := r.Sub("openfaults"); !raceMode() && !tpl.twoSel && len(contA) >= 2 && p.Tags["cache_pressure"] == "" && fr.Bool(0.06) {
+		// One or two requests for a container's log fail, with the daemon's typed errors
+		// among them. Whether the query fails must not depend on which answer comes first.
+		perm := fr.Perm(len(contA))
+		for k := 0; k < 1+fr.Intn(2); k++ {
+			p.Faults = append(p.Faults, Fault{Kind: FaultOpenError, Container: contA[perm[k]].ID, Open: -1,
+				ErrKind: []string{"", "not_found", "not_implemented"}[fr.Intn(3)]})
+		}
+		p.Config = "open_faults"
+	}
 	if raceMode() && len(contA) > 0 && r.Bool(0.4) {
 		// Race phase only: let the failure and cleanup paths run concurrently
 		// with the other opens, so that the detector sees them too.
